@@ -165,7 +165,7 @@ func runC05(c *an.Ctx) {
 	}
 	anyFact := func(st *an.State, set map[types.Object]bool, val bool) bool {
 		for o := range set {
-			if an.FactIs(st, o.Name(), val) {
+			if an.FactIs(st, an.RoleOf(o), val) {
 				return true
 			}
 		}
@@ -315,7 +315,7 @@ func runC05(c *an.Ctx) {
 			// '.' becomes the current element exactly when there is no value variable
 			if p.FieldKey(info, lhs) == "Runtime.context" {
 				if _, isVal := identIn(rhs, valVars); isVal {
-					if valSlot == nil || !an.FactIs(st, valSlot.Name()+" < 0", true) {
+					if valSlot == nil || !an.FactIs(st, an.RoleOf(valSlot)+" < 0", true) {
 						addOnce(&bindBad, lhs.Pos(), "'.' is set to the current element on a path where a value variable may exist (value slot < 0 not established)", st)
 					} else {
 						st.Set("rg:ctx", "1")
@@ -588,7 +588,7 @@ func c05rangers(c *an.Ctx) {
 					endPath = true
 				}
 			} else if f.Sig != nil && f.Sig.Results().Len() == 3 && f.Sig.Results().At(2).Name() != "" {
-				endPath = an.FactIs(ex.State, f.Sig.Results().At(2).Name(), true)
+				endPath = an.FactIs(ex.State, an.RoleOf(f.Sig.Results().At(2)), true)
 			}
 			switch {
 			case endPath && total != 0:
